@@ -279,6 +279,51 @@ func run(r *vk.Runner) {
 		}
 	}
 
+	// ---- (5b) url.Values with two keys (paths sharing a prefix, member pairs of one oneof) ----
+	r.Family("url-values-pairs")
+	pairKeys := []string{"fVal", "alt", "other", "tail", "holder.fVal", "holder.zz", "holder", "w.holder.fVal", "w.alt.zVal", "w.fVal", "w.alt", "choice.fVal", "choice.alt", "choice", "holders", "holderMap.k.fVal", "zz"}
+	for _, c := range gpb.SingleFieldCases() {
+		c := c
+		if r.Stopped() {
+			return
+		}
+		if c.Under.Label != gpb.Single {
+			continue
+		}
+		if err := c.Schema.Build(); err != nil {
+			panic(err)
+		}
+		codec := j5codec.NewCodec(j5codec.WithResolver(gpb.Resolver{S: c.Schema}))
+		coord := "kind=" + c.Under.Kind.String() + "|label=" + c.Under.Label.String()
+		for i, k1 := range pairKeys {
+			for j, k2 := range pairKeys {
+				if j <= i {
+					continue
+				}
+				for vi, v := range []string{"1", "x", "{}"} {
+					k1, k2, v := k1, k2, v
+					r.Do(fmt.Sprintf("query2:%s:%d:%d:%d", c.ID, i, j, vi), func(t *vk.T) {
+						t.Coord(fmt.Sprintf("query|%s|keys=%q,%q|value=%q", coord, k1, k2, v))
+						t.SigCoord("query")
+						t.Nontrivial()
+						// url.Values is a Go map: both processing orders are reached by
+						// repeating the call (not owned; see DESIGN.md C06)
+						for rep := 0; rep < 4; rep++ {
+							msg := dynamicpb.NewMessage(c.Schema.Desc(c.Schema.Root))
+							err := codec.QueryToProto(url.Values{k1: {v}, k2: {v}}, msg)
+							t.Step()
+							if err != nil {
+								t.Class("error")
+							} else {
+								t.Class("accepted")
+							}
+						}
+					})
+				}
+			}
+		}
+	}
+
 	// ---- (4) nesting bombs and huge scalars ----
 	r.Family("bombs")
 	rs := recSchema()
